@@ -1,8 +1,8 @@
 #!/usr/bin/env bash
 # tools/sweep.sh <tier> [seed]  — runs every check once on the current tree, prints one line each
 TIER="${1:-quick}"; export VERIF_SEED="${2:-1}"
-cd /verif
+cd "$(dirname "$(readlink -f "$0")")/.."
 for ID in C01 C02 C03 C04 C05 C06 C07 C08 C09 C10 C11 C12 C13 C14 C15 C16 C17 C18 C19; do
-  S=$(date +%s); ./check $ID $TIER > /tmp/sweep.$ID.$VERIF_SEED.log 2>&1; RC=$?; E=$(date +%s)
-  echo "$ID seed=$VERIF_SEED exit=$RC wall=$((E-S))s $(grep -c '^VIOLATION' /tmp/sweep.$ID.$VERIF_SEED.log) violations, $(grep -c '^KNOWN-FINDING' /tmp/sweep.$ID.$VERIF_SEED.log) known :: $(tail -1 /tmp/sweep.$ID.$VERIF_SEED.log | cut -c1-160)"
+  S=$(date +%s); ./check $ID $TIER > ${SWEEP_LOG:-/tmp}/sweep.$ID.$VERIF_SEED.log 2>&1; RC=$?; E=$(date +%s)
+  echo "$ID seed=$VERIF_SEED exit=$RC wall=$((E-S))s $(grep -c '^VIOLATION' ${SWEEP_LOG:-/tmp}/sweep.$ID.$VERIF_SEED.log) violations, $(grep -c '^KNOWN-FINDING' ${SWEEP_LOG:-/tmp}/sweep.$ID.$VERIF_SEED.log) known :: $(tail -1 ${SWEEP_LOG:-/tmp}/sweep.$ID.$VERIF_SEED.log | cut -c1-160)"
 done
